@@ -46,7 +46,10 @@ def lattices(tier):
     out = []
 
     def add(name, Ls, bc_MPS, bc, order='default', remove=None, kinds=None):
-        out.append((dict(name=name, Ls=Ls, bc_MPS=bc_MPS, bc=bc, order=order, remove=remove), kinds or (one if R.N_U[name] == 1 else two)))
+        if kinds is None:  # quick: two of the four kinds per lattice, in rotation
+            kinds = one if R.N_U[name] == 1 else two
+            kinds = [kinds[(len(out) + j) % 4] for j in ((0, 2) if len(out) % 2 else (1, 3))] if q else kinds
+        out.append((dict(name=name, Ls=Ls, bc_MPS=bc_MPS, bc=bc, order=order, remove=remove), kinds))
 
     for L in (2, 3, 4) if q else (2, 3, 4, 5, 6):
         add('Chain', [L], 'finite', ['open'])
@@ -108,7 +111,7 @@ def generator_calls(spec, kind, group, tier, jit):
                     for s, hc in strengths(herm, jit):
                         yield ['coupling', s, u1, op1, u2, op2, list(dx), hc], bool(herm or hc)
     elif group == 'multi':
-        offs = [[d] for d in (0, 1, -1, 2)] if dim == 1 else [[0, 0], [1, 0], [0, 1], [1, 1], [-1, 1]]
+        offs = [[d] for d in ((0, 1, -2) if q else (0, 1, -1, 2))] if dim == 1 else [[0, 0], [1, 0], [0, 1], [1, 1], [-1, 1]][:3 if q else 5]
         k = 0
         for ops in MULTI[kind]:
             us = [[u for u in range(nu) if ty[u] == t] for _, t in ops]
@@ -221,19 +224,20 @@ def cases(spec, kind, group, tier, seed):
     """All cases of a unit: single calls with and without explicit_plus_hc, or pairs of generators."""
     jit = 0.001 * (seed % 89)
     if group != 'pairs':
+        every = 4 if tier == 'quick' else 2  # the transformations of the MPO / bond terms are checked on every 4th (2nd) case
         for k, (call, herm) in enumerate(generator_calls(spec, kind, group, tier, jit)):
-            yield dict(lat=spec, kind=kind, calls=[call], explicit=False)
+            yield dict(lat=spec, kind=kind, calls=[call], explicit=False, heavy=k % every == 0)
             if herm and (k % 2 == 0 or tier != 'quick'):
-                yield dict(lat=spec, kind=kind, calls=[call], explicit=True)
+                yield dict(lat=spec, kind=kind, calls=[call], explicit=True, heavy=k % every == 1)
     else:  # one representative (the last = most general) call of every generator, all pairs
         reps = []
         for g in GROUPS:
             cs = [c for c, herm in generator_calls(spec, kind, g, tier, jit) if herm]
             reps += cs[-1:] if g != 'coupling' else [cs[len(cs) // 2], cs[-1]]
         for k, (a, b) in enumerate(itertools.combinations(reps, 2)):
-            yield dict(lat=spec, kind=kind, calls=[a, b], explicit=bool(k % 2))
-        yield dict(lat=spec, kind=kind, calls=reps, explicit=False)
-        yield dict(lat=spec, kind=kind, calls=reps, explicit=True)
+            yield dict(lat=spec, kind=kind, calls=[a, b], explicit=bool(k % 2), heavy=True)
+        yield dict(lat=spec, kind=kind, calls=reps, explicit=False, heavy=True)
+        yield dict(lat=spec, kind=kind, calls=reps, explicit=True, heavy=True)
 
 
 def units(tier, seed, label):
@@ -258,9 +262,13 @@ def grid_model(lat, calls, explicit, nn, sort_mpo_legs=False):
     return (GridNNModel if nn else GridModel)(dict(lattice=lat, calls=calls, explicit_plus_hc=explicit, sort_mpo_legs=sort_mpo_legs))
 
 
-def representations(M, n, first=0, termlist=True):
-    """name -> function returning the dense matrix of one representation of the Hamiltonian of the model `M`
-    on the window of n MPS sites starting at `first` (whole unit cells; finite systems: everything)."""
+OP_BASIS = dict(S=['Id', 'Sz', 'Sp', 'Sm'], S0=['Id', 'Sx', 'Sy', 'Sz'])  # orthogonal operator bases for MPO.to_TermList
+
+
+def representations(M, n, first=0, termlist=True, heavy=True, op_basis=None):
+    """name -> function returning the dense matrix (or a list of them) of one representation of the Hamiltonian
+    of the model `M` on the window of n MPS sites starting at `first` (whole unit cells; finite: all sites).
+    `heavy`: include the conversions and the transformed models."""
     from tenpy.algorithms import exact_diag as ED
     from tenpy.models.model import CouplingModel, MPOModel, NearestNeighborModel
     lat = M.lat
@@ -283,23 +291,35 @@ def representations(M, n, first=0, termlist=True):
     reps['H_MPO'] = lambda: R.mpo_dense(M.H_MPO, first, n)
     if nn:
         reps['H_bond'] = lambda: R.bonds_dense(M.H_bond, sites, first, n, finite)
-        reps['calc_H_MPO_from_bond'] = lambda: R.mpo_dense(NearestNeighborModel(lat, M.H_bond).calc_H_MPO_from_bond(), first, n)
-        reps['calc_H_bond_from_MPO'] = lambda: R.bonds_dense(M.calc_H_bond_from_MPO(), sites, first, n, finite)
-        reps['MPOModel.calc_H_bond_from_MPO'] = lambda: R.bonds_dense(MPOModel(lat, M.H_MPO).calc_H_bond_from_MPO(), sites, first, n, finite)
-        reps['NearestNeighborModel.from_MPOModel'] = lambda: R.bonds_dense(NearestNeighborModel.from_MPOModel(M).H_bond, sites, first, n, finite)
+    if finite and isinstance(M, CouplingModel):
+        reps['get_numpy_Hamiltonian'] = lambda: ED.get_numpy_Hamiltonian(M, undo_sort_charge=False)
+        reps['get_scipy_sparse_Hamiltonian(undo_sort_charge)'] = lambda: R.sort_basis(ED.get_scipy_sparse_Hamiltonian(M).toarray(), win)
+    if not heavy:
+        return reps
+    if first:  # shifted window of an infinite system
+        reps['extract_segment'] = lambda: R.mpo_dense(M.extract_segment(first, first + n - 1).H_MPO, 0, n)
+        return reps
+    if nn:
+        reps['calc_H_MPO_from_bond'] = lambda: R.mpo_dense(NearestNeighborModel(lat, M.H_bond).calc_H_MPO_from_bond(), 0, n)
+        reps['calc_H_bond_from_MPO'] = lambda: R.bonds_dense(M.calc_H_bond_from_MPO(), sites, 0, n, finite)
+        reps['MPOModel.calc_H_bond_from_MPO'] = lambda: R.bonds_dense(MPOModel(lat, M.H_MPO).calc_H_bond_from_MPO(), sites, 0, n, finite)
+        reps['NearestNeighborModel.from_MPOModel'] = lambda: R.bonds_dense(NearestNeighborModel.from_MPOModel(M).H_bond, sites, 0, n, finite)
 
     def sorted_legs():
-        H = M.H_MPO.copy()
+        H = copy.deepcopy(M.H_MPO)  # (MPO.copy() is shallow and sort_legcharges changes the IdL/IdR lists in place)
         H.sort_legcharges()
         H.test_sanity()
-        return R.mpo_dense(H, first, n)
+        return R.mpo_dense(H, 0, n)
     reps['sort_legcharges'] = sorted_legs
-    if finite and first == 0:
+    if op_basis:
+        def mpo_term_list():
+            tl = M.H_MPO.to_TermList(op_basis, ignore=['Id'])
+            return plus_hc(R.termlist_dense(tl, sites, 0, n, finite))
+        reps['MPO.to_TermList'] = mpo_term_list
+    if finite:
         if isinstance(M, CouplingModel):
-            reps['get_numpy_Hamiltonian'] = lambda: ED.get_numpy_Hamiltonian(M, undo_sort_charge=False)
             reps['get_numpy_Hamiltonian(undo_sort_charge)'] = lambda: R.sort_basis(ED.get_numpy_Hamiltonian(M), win)
             reps['get_scipy_sparse_Hamiltonian'] = lambda: ED.get_scipy_sparse_Hamiltonian(M, undo_sort_charge=False).toarray()
-            reps['get_scipy_sparse_Hamiltonian(undo_sort_charge)'] = lambda: R.sort_basis(ED.get_scipy_sparse_Hamiltonian(M).toarray(), win)
         reps['get_numpy_Hamiltonian(MPOModel)'] = lambda: R.sort_basis(ED.get_numpy_Hamiltonian(MPOModel(lat, M.H_MPO)), win)
         if nn:
             reps['get_numpy_Hamiltonian(NearestNeighborModel)'] = \
@@ -308,8 +328,7 @@ def representations(M, n, first=0, termlist=True):
         def exact_diag(**kw):
             ed = ED.ExactDiag(M, **kw)
             ed.build_full_H_from_mpo()
-            H = ed.full_H.split_legs().itranspose(['p%d%s' % (i, s) for s in ('', '*') for i in range(n)])
-            return H.to_ndarray().reshape(ed.full_H.shape)
+            return _full_H(ed)
         reps['ExactDiag.build_full_H_from_mpo'] = exact_diag
         reps['ExactDiag(sparse).build_full_H_from_mpo'] = lambda: exact_diag(sparse=True)
 
@@ -324,7 +343,7 @@ def representations(M, n, first=0, termlist=True):
         if nn and len(gs) > 1:
             res.append(R.unfold(R.bonds_dense(G.H_bond, gs, 0, g_n, finite), gw))
         return res
-    for k in (2, 3) if first == 0 else ():
+    for k in (2, 3):
         if N > k or (not finite and N >= 2):
             reps['group_sites(%d)' % k] = lambda k=k: grouped(k)
     if not finite:
@@ -332,22 +351,24 @@ def representations(M, n, first=0, termlist=True):
             E = M.copy()
             E.lat = copy.copy(M.lat)
             E.enlarge_mps_unit_cell(2)
-            E.test_sanity()
+            MPOModel.test_sanity(E)
+            E.H_MPO.test_sanity()
             assert E.lat.N_sites == 2 * N == E.H_MPO.L
-            return [R.mpo_dense(E.H_MPO, first, n)] + ([R.bonds_dense(E.H_bond, E.lat.mps_sites(), first, n, False)] if nn else [])
+            return [R.mpo_dense(E.H_MPO, 0, n)] + ([R.bonds_dense(E.H_bond, E.lat.mps_sites(), 0, n, False)] if nn else [])
         reps['enlarge_mps_unit_cell'] = enlarged
-        reps['ExactDiag.from_infinite_model'] = lambda: _ed_segment(M, first, n)
-    if first == 0 or not finite:
-        def segment():
-            seg = M.extract_segment(first, first + n - 1) if (first or finite) else M.extract_segment(enlarge=n // N)
-            seg.test_sanity()
-            assert seg.H_MPO.bc == 'segment' and seg.H_MPO.L == n and seg.lat.N_sites == n
-            if nn:  # the bond terms of the segment are those of the original sites
-                for k, h in enumerate(seg.H_bond):
-                    h0 = M.H_bond[(first + k) % N]
-                    assert (h is None) == (h0 is None) and (h is None or np.abs(h.to_ndarray() - h0.to_ndarray()).max() < TOL)
-            return R.mpo_dense(seg.H_MPO, 0, n)
-        reps['extract_segment'] = segment
+        reps['ExactDiag.from_infinite_model'] = lambda: _ed_segment(M, 0, n)
+
+    def segment():
+        seg = M.extract_segment(0, n - 1) if finite else M.extract_segment(enlarge=n // N)
+        MPOModel.test_sanity(seg)
+        seg.H_MPO.test_sanity()
+        assert seg.H_MPO.bc == 'segment' and seg.H_MPO.L == n and seg.lat.N_sites == n
+        if nn:  # the bond terms of the segment are those of the original sites
+            for k, h in enumerate(seg.H_bond):
+                h0 = M.H_bond[k % N]
+                assert (h is None) == (h0 is None) and (h is None or np.abs(h.to_ndarray() - h0.to_ndarray()).max() < TOL)
+        return R.mpo_dense(seg.H_MPO, 0, n)
+    reps['extract_segment'] = segment
     return reps
 
 
@@ -355,8 +376,13 @@ def _ed_segment(M, first, n):
     from tenpy.algorithms.exact_diag import ExactDiag
     ed = ExactDiag.from_infinite_model(M, first, first + n - 1)
     ed.build_full_H_from_mpo()
-    H = ed.full_H.split_legs().itranspose(['p%d%s' % (i, s) for s in ('', '*') for i in range(n)])
-    return H.to_ndarray().reshape(ed.full_H.shape)
+    return _full_H(ed)
+
+
+def _full_H(ed):
+    """full_H has the legs '(p0.p1....)', '(p0*.p1*....)': LegPipes of the physical legs."""
+    perm = R.pipe_perm(ed.full_H.get_leg(0))
+    return ed.full_H.to_ndarray()[np.ix_(perm, perm)]
 
 
 def check_case(case):
@@ -391,7 +417,9 @@ def check_case(case):
     except Exception as e:  # noqa: BLE001
         bad('model', 'exception:' + type(e).__name__, '%s\n%s' % (e, traceback.format_exc()[-1200:]))
         return viol, info
-    if ref.max_range > 1:  # documented: ValueError if the Hamiltonian contains longer-range terms
+    heavy = case.get('heavy', True)
+    op_basis = None if ref.exp and not finite else OP_BASIS.get(case['kind'])  # (infinite range: the list is truncated)
+    if heavy and ref.max_range > 1:  # documented: ValueError if the Hamiltonian contains longer-range terms
         for name, f in [('calc_H_bond', M.calc_H_bond)] * (not ref.exp) + [('calc_H_bond_from_MPO', M.calc_H_bond_from_MPO)]:
             try:
                 f()
@@ -403,19 +431,17 @@ def check_case(case):
     if M.H_MPO.max_range is not None and M.H_MPO.max_range < ref.max_range:
         bad('H_MPO.max_range', 'too-small', 'max_range=%r but there are terms of range %d' % (M.H_MPO.max_range, ref.max_range))
     try:
-        if info['nontrivial'] and bool(M.H_MPO.is_hermitian()) != bool(herm):
+        if heavy and info['nontrivial'] and bool(M.H_MPO.is_hermitian()) != bool(herm):
             bad('H_MPO.is_hermitian', 'wrong', 'is_hermitian()=%s, the sum of terms is %shermitian' % (M.H_MPO.is_hermitian(), '' if herm else 'not '))
     except Exception as e:  # noqa: BLE001
         bad('H_MPO.is_hermitian', 'exception:' + type(e).__name__, str(e))
-    for first in [0] if finite or case['lat']['remove'] else [0, lat.N_sites_per_ring]:
+    for first in [0] if finite or case['lat']['remove'] or not heavy else [0, lat.N_sites_per_ring]:
         if first:
             ref = R.Ref(lat, first, n)
             for c in calls:
                 ref.add(c)
             H = ref.dense()
-        for name, f in representations(M, n, first, termlist=not ref.explicit_string).items():
-            if first and name not in ('H_MPO', 'H_bond', 'extract_segment', 'ExactDiag.from_infinite_model', 'group_sites(2)', 'to_TermList'):
-                continue
+        for name, f in representations(M, n, first, not ref.explicit_string, heavy, op_basis).items():
             try:
                 with warnings.catch_warnings():
                     warnings.simplefilter('ignore')
